@@ -476,6 +476,9 @@ Proof.
   split; [intros [[-> ->] ->]; reflexivity | intros H; injection H; auto].
 Qed.
 
+Lemma ak_fields a b : ak a = ak b -> a_batch a = a_batch b /\ a_job a = a_job b /\ a_id a = a_id b.
+Proof. unfold ak. intros H. injection H; auto. Qed.
+
 Lemma same_attempt_ak x n : same_attempt x n = true <-> ak x = ak n.
 Proof. apply akey_ak. Qed.
 
@@ -568,6 +571,19 @@ Proof.
   right. subst z. apply Z.eqb_neq in E. split; assumption.
 Qed.
 
+Lemma inst_set_free y f :
+  i_name (y <| i_free := f |>) = i_name y /\ i_state (y <| i_free := f |>) = i_state y /\
+  i_cores (y <| i_free := f |>) = i_cores y /\ i_free (y <| i_free := f |>) = f.
+Proof. repeat split. Qed.
+
+Ltac inst_simpl :=
+  repeat match goal with
+  | |- context [i_name (?y <| i_free := ?f |>)] => change (i_name (y <| i_free := f |>)) with (i_name y)
+  | |- context [i_state (?y <| i_free := ?f |>)] => change (i_state (y <| i_free := f |>)) with (i_state y)
+  | |- context [i_cores (?y <| i_free := ?f |>)] => change (i_cores (y <| i_free := f |>)) with (i_cores y)
+  | |- context [i_free (?y <| i_free := ?f |>)] => change (i_free (y <| i_free := f |>)) with f
+  end.
+
 (* the load an attempt puts on instance [m] *)
 Definition load (s : state) (m : Z) (a : attempt) : Z := if open_on m a then jc s a else 0.
 
@@ -659,7 +675,7 @@ Proof.
       { right. cbn [a_inst n]. rewrite <- Hny. apply in_map; exact Hy. }
       destruct (ilive (i_state y)) eqn:El; injection H as <- <-.
       * split; [split|].
-        -- eapply inv0_snoc with (n := n); try reflexivity; try assumption.
+        -- apply (inv0_snoc s _ n HI); try reflexivity; try assumption.
            ++ cbn [insts]. apply replace_inst_names.
            ++ cbn [a_batch a_job n]; rewrite Hx; discriminate.
         -- intros z Hz Hnz. cbn [insts] in Hz.
@@ -668,15 +684,15 @@ Proof.
            rewrite (used_same_attempts s0 _ (i_name z)) by reflexivity. rewrite Hu0. unfold load, open_on.
            cbn [a_inst n is_open a_end]. rewrite andb_true_r, Hjn.
            destruct Hz as [->|[Hz Hne]].
-           ++ cbn [i_name i_state i_free i_cores]. rewrite El, Hny, Z.eqb_refl.
+           ++ inst_simpl. rewrite El, Hny, Z.eqb_refl.
               specialize (HC y Hy). unfold cores_ok in HC. rewrite El, Hny in HC.
-              cbn [i_name] in Hnz. rewrite Hny in Hnz. rewrite (HC Hnz). lia.
-           ++ cbn [i_name] in Hne. rewrite Hny in Hne.
+              change (i_name y <> -1) in Hnz. rewrite Hny in Hnz. rewrite (HC Hnz). lia.
+           ++ change (i_name z <> i_name y) in Hne. rewrite Hny in Hne.
               destruct (i =? i_name z) eqn:E; [apply Z.eqb_eq in E; congruence|].
               rewrite Z.add_0_r. apply HC; assumption.
         -- split; [reflexivity|]. exists n. split; [exact Hfn | reflexivity].
       * split; [split|].
-        -- eapply inv0_snoc with (n := n); try reflexivity; try assumption.
+        -- apply (inv0_snoc s _ n HI); try reflexivity; try assumption.
            cbn [a_batch a_job n]; rewrite Hx; discriminate.
         -- intros z Hz Hnz. change (insts s0) with (insts s) in Hz.
            unfold cores_ok. rewrite Hu0. unfold load, open_on. cbn [a_inst n is_open a_end]. rewrite andb_true_r.
@@ -689,7 +705,7 @@ Proof.
         -- split; [reflexivity|]. exists n. split; [exact Hfn | reflexivity].
     + destruct (i =? -1) eqn:Ei1; [|discriminate]. injection H as <- <-. apply Z.eqb_eq in Ei1.
       split; [split|].
-      * eapply inv0_snoc with (n := n); try reflexivity; try assumption.
+      * apply (inv0_snoc s _ n HI); try reflexivity; try assumption.
         -- cbn [a_batch a_job n]; rewrite Hx; discriminate.
         -- left; exact Ei1.
       * intros z Hz Hnz. change (insts s0) with (insts s) in Hz.
@@ -697,4 +713,343 @@ Proof.
         destruct (i =? i_name z) eqn:E; [apply Z.eqb_eq in E; congruence|].
         cbn [andb]. rewrite Z.add_0_r. apply HC; assumption.
       * split; [reflexivity|]. exists n. split; [exact Hfn | reflexivity].
+Qed.
+
+(* ------------------------------------------------------------------ (4) update_attempt against the clamp *)
+
+Lemma clamp_key o req : ak (clamp o req) = ak req /\ a_inst (clamp o req) = a_inst req.
+Proof. unfold clamp. destruct (clamp4 (times_of o) (times_of req)) as [[[? ?] ?] ?]. split; reflexivity. Qed.
+
+Definition epair (a : attempt) : option Z * option Z := (a_end a, a_reason a).
+
+(* the end time / end reason pair after the trigger is the old pair or the requested pair;
+   the requested pair when there was no reason before *)
+Lemma clamp_epair o req :
+  (epair (clamp o req) = epair o \/ epair (clamp o req) = epair req) /\
+  (a_reason o = None -> epair (clamp o req) = epair req).
+Proof.
+  unfold clamp, epair.
+  destruct (clamp4 (times_of o) (times_of req)) as [[[s1 r1] e1] rs1] eqn:E.
+  cbn [a_end a_reason].
+  unfold times_of, clamp4 in E. injection E as _ _ E3 E4. subst e1 rs1.
+  match goal with |- context [if ?k then a_end o else a_end req] => destruct k eqn:Ek end.
+  - split; [left; reflexivity|]. intros Hnone. rewrite Hnone in Ek. discriminate.
+  - split; [right; reflexivity | reflexivity].
+Qed.
+
+Lemma update_attempt_core s c req :
+  Inv0 s -> In c (attempts s) -> ak req = ak c -> a_inst req = a_inst c ->
+  let n := clamp c req in
+  let s' := update_attempt s c req in
+  jobs s' = jobs s /\ insts s' = insts s /\ attempts s' = replace_attempt n (attempts s) /\
+  ak n = ak c /\ a_inst n = a_inst c /\
+  JU s' /\ AU s' /\ IU s' /\ attjob s' /\ attinst s' /\
+  (forall y, In y (attempts s') -> y = n \/ In y (attempts s)) /\
+  find_attempt s' (a_batch c) (a_job c) (a_id c) = Some n /\
+  (forall m, used s' m = used s m - load s m c + load s m n).
+Proof.
+  intros (Hju & Hau & Hiu & Haj & Hai & Hr) Hc Hk Hi n s'.
+  pose proof (update_attempt_frame s c req) as F. cbv zeta in F. fold s' in F. fold n in F.
+  destruct F as (_&_&_&_&_&Fj&_&_&_&_&Fa&Fi&_&_).
+  destruct (clamp_key c req) as [Kn In_]. fold n in Kn, In_.
+  assert (Kc : ak n = ak c) by congruence.
+  assert (Ic : a_inst n = a_inst c) by congruence.
+  destruct (replace_attempt_split n c _ Hau Hc Kc) as (l1 & l2 & E1 & E2).
+  assert (Hys : forall y, In y (attempts s') -> y = n \/ In y (attempts s)).
+  { intros y Hy. rewrite Fa, E2 in Hy. rewrite E1. apply in_app_iff in Hy. rewrite in_app_iff.
+    destruct Hy as [Hy|[<-|Hy]]; [right; left; exact Hy | left; reflexivity | right; right; right; exact Hy]. }
+  repeat split; try assumption.
+  - unfold JU; rewrite Fj; exact Hju.
+  - unfold AU; rewrite Fa, replace_attempt_ak; exact Hau.
+  - unfold IU; rewrite Fi; exact Hiu.
+  - intros y Hy. unfold find_job. rewrite Fj. destruct (Hys y Hy) as [->|Hy'].
+    + destruct (ak_fields _ _ Kc) as (K1 & K2 & _). rewrite K1, K2. apply Haj; exact Hc.
+    + apply Haj; exact Hy'.
+  - intros y Hy. rewrite Fi. destruct (Hys y Hy) as [->|Hy']; [rewrite Ic; apply Hai; exact Hc | apply Hai; exact Hy'].
+  - rewrite find_attempt_eq, Fa.
+    assert (U : NoDup (map ak (replace_attempt n (attempts s)))) by (rewrite replace_attempt_ak; exact Hau).
+    assert (Hn : In n (replace_attempt n (attempts s))) by (rewrite E2; apply in_app_iff; right; left; reflexivity).
+    pose proof (find_akey_unique _ n U Hn) as Fn. destruct (ak_fields _ _ Kc) as (K1 & K2 & K3).
+    rewrite K1, K2, K3 in Fn. exact Fn.
+  - intros m. apply used_replace; assumption.
+Qed.
+
+(* what remains: [reason_ok], and the effect on [used], by the shape of the request *)
+Definition keeps_pair (c req : attempt) : Prop := epair req = epair c.
+Definition closes (req : attempt) : Prop := a_end req <> None /\ a_reason req <> None.
+
+Lemma update_attempt_spec s c req :
+  Inv0 s -> In c (attempts s) -> ak req = ak c -> a_inst req = a_inst c ->
+  a_inst c = -1 \/ keeps_pair c req \/ closes req ->
+  let n := clamp c req in
+  let s' := update_attempt s c req in
+  Inv0 s' /\ jobs s' = jobs s /\ insts s' = insts s /\
+  find_attempt s' (a_batch c) (a_job c) (a_id c) = Some n /\ ak n = ak c /\ a_inst n = a_inst c /\
+  (forall m, m <> a_inst c -> used s' m = used s m) /\
+  (a_inst c <> -1 -> keeps_pair c req -> used s' (a_inst c) = used s (a_inst c) /\ is_open n = is_open c) /\
+  (a_inst c <> -1 -> closes req -> used s' (a_inst c) = used s (a_inst c) - (if is_open c then jc s c else 0) /\ is_open n = false).
+Proof.
+  intros HI Hc Hk Hi Hcase n s'.
+  destruct (update_attempt_core s c req HI Hc Hk Hi) as (Fj & Fi & Fa & Kc & Ic & J' & A' & I' & AJ' & AI' & Hys & Ff & Hu).
+  fold n in Fa, Kc, Ic, Hys, Ff, Hu. fold s' in Fj, Fi, Fa, J', A', I', AJ', AI', Hys, Ff, Hu.
+  pose proof HI as (Hju & Hau & Hiu & Haj & Hai & Hr).
+  destruct (clamp_epair c req) as [Hd Hn]. fold n in Hd, Hn.
+  assert (Hjc : jc s n = jc s c) by (apply jc_key; exact Kc).
+  clearbody n s'.
+  (* facts about the new row *)
+  assert (Hkeep : a_inst c <> -1 -> keeps_pair c req -> is_open n = is_open c /\ (a_end n = None -> a_reason n = None)).
+  { intros Hne Hkp. unfold keeps_pair in Hkp. assert (E : epair n = epair c) by (destruct Hd; congruence).
+    unfold epair in E. injection E as E1 E2. unfold is_open. rewrite E1, E2. split; [reflexivity|]. apply Hr; assumption. }
+  assert (Hclose : a_inst c <> -1 -> closes req -> a_end n <> None).
+  { intros Hne [Hc1 Hc2].
+    destruct (a_reason c) as [rc|] eqn:Erc.
+    - assert (Hec : a_end c <> None) by (intros E; specialize (Hr c Hc Hne E); congruence).
+      destruct Hd as [E|E]; unfold epair in E; injection E as E1 E2; congruence.
+    - specialize (Hn eq_refl). unfold epair in Hn. injection Hn as E1 E2. congruence. }
+  assert (Hreason : reason_ok s').
+  { intros y Hy Hny Hey. destruct (Hys y Hy) as [->|Hy']; [|apply Hr; assumption].
+    rewrite Ic in Hny. destruct Hcase as [H1|[H2|H3]]; [congruence | apply (Hkeep Hny H2); exact Hey |].
+    exfalso. exact (Hclose Hny H3 Hey). }
+  split; [repeat split; assumption|]. repeat split; try assumption.
+  - intros m Hm. rewrite Hu. unfold load, open_on. rewrite Ic.
+    destruct (a_inst c =? m) eqn:E; [apply Z.eqb_eq in E; congruence|]. cbn [andb]. lia.
+  - rewrite Hu. unfold load, open_on. rewrite Ic, Hjc. destruct (Hkeep H H0) as [-> _]. lia.
+  - apply Hkeep; assumption.
+  - rewrite Hu. unfold load, open_on. rewrite Ic, Hjc, Z.eqb_refl. cbn [andb].
+    assert (E : is_open n = false) by (unfold is_open; destruct (a_end n); [reflexivity | exfalso; apply (Hclose H H0); reflexivity]).
+    rewrite E. destruct (is_open c); lia.
+  - unfold is_open; destruct (a_end n); [reflexivity | exfalso; apply (Hclose H H0); reflexivity].
+Qed.
+
+(* ------------------------------------------------------------------ (5) building blocks for the ops *)
+
+Lemma Inv0_jext s s' : Inv0 s -> jext s s' -> Inv0 s'.
+Proof.
+  intros (Hju & Hau & Hiu & Haj & Hai & Hr) He.
+  pose proof He as (Ha & Hi & Hj' & m & Em). repeat split.
+  - exact Hj'.
+  - unfold AU; rewrite Ha; exact Hau.
+  - unfold IU; rewrite Hi; exact Hiu.
+  - intros a Hin. rewrite Ha in Hin. specialize (Haj a Hin).
+    destruct (find_job s (a_batch a) (a_job a)) as [x|] eqn:E; [|congruence].
+    destruct (jext_find_job _ _ _ _ _ He E) as (x' & -> & _). discriminate.
+  - intros a Hin. rewrite Ha in Hin. rewrite Hi. apply Hai; exact Hin.
+  - intros a Hin. rewrite Ha in Hin. apply Hr; exact Hin.
+Qed.
+
+Lemma inv0_insts s s' :
+  Inv0 s -> jobs s' = jobs s -> attempts s' = attempts s -> map i_name (insts s') = map i_name (insts s) -> Inv0 s'.
+Proof.
+  intros (Hju & Hau & Hiu & Haj & Hai & Hr) Hj Ha Hi.
+  unfold Inv0, JU, AU, IU, attjob, attinst, reason_ok, find_job. rewrite Hj, Ha, Hi. repeat split; assumption.
+Qed.
+
+Lemma find_attempt_in s b j a c : find_attempt s b j a = Some c -> In c (attempts s) /\ a_batch c = b /\ a_job c = j /\ a_id c = a.
+Proof.
+  intros H. rewrite find_attempt_eq in H. apply find_akey_sound in H. destruct H as [H1 H2].
+  unfold ak in H2. injection H2 as -> -> ->. auto.
+Qed.
+
+Lemma cinv_update_keep s c req :
+  CInv s -> In c (attempts s) -> ak req = ak c -> a_inst req = a_inst c -> keeps_pair c req ->
+  CInv (update_attempt s c req) /\ jobs (update_attempt s c req) = jobs s.
+Proof.
+  intros [HI HC] Hc Hk Hi Hkp.
+  destruct (update_attempt_spec s c req HI Hc Hk Hi (or_intror (or_introl Hkp))) as (I' & Fj & Fi & _ & _ & _ & U1 & U2 & _).
+  split; [split; [exact I'|] | exact Fj].
+  intros z Hz Hnz. rewrite Fi in Hz. unfold cores_ok.
+  assert (E : used (update_attempt s c req) (i_name z) = used s (i_name z)).
+  { destruct (Z.eq_dec (i_name z) (a_inst c)) as [E|E]; [|apply U1; exact E].
+    rewrite E. apply U2; [congruence | exact Hkp]. }
+  rewrite E. apply HC; assumption.
+Qed.
+
+Lemma cinv_give_null s y f : CInv s -> i_name y = -1 -> CInv (s <| insts ::= replace_inst (y <| i_free := f |>) |>).
+Proof.
+  intros [HI HC] Hy. split.
+  - apply (inv0_insts s _ HI); try reflexivity. cbn [insts]. apply replace_inst_names.
+  - intros z Hz Hnz. cbn [insts] in Hz. apply in_replace_inst in Hz. destruct Hz as [->|[Hz _]].
+    + exfalso. apply Hnz. exact Hy.
+    + unfold cores_ok. rewrite (used_same_attempts s _ (i_name z)) by reflexivity. apply HC; assumption.
+Qed.
+
+(* an attempt of job (b, j) on instance [i] is ended and the cores go back to a live instance *)
+Lemma close_and_give s b j a c x i req :
+  CInv s -> find_attempt s b j a = Some c -> find_job s b j = Some x -> a_inst c = i ->
+  ak req = ak c -> a_inst req = a_inst c -> (i = -1 \/ closes req) ->
+  let s1 := update_attempt s c req in
+  let give := inst_live (inst_state s1 i) && is_open c in
+  let s2 := if give then match find_inst s1 i with
+                         | Some y => s1 <| insts ::= replace_inst (y <| i_free := i_free y + j_cores x |>) |>
+                         | None => s1 end else s1 in
+  CInv s2 /\ jobs s2 = jobs s.
+Proof.
+  intros [HI HC] Hf Hx Hi Hk Hri Hcase s1 give s2.
+  destruct (find_attempt_in _ _ _ _ _ Hf) as (Hc & Hb & Hj & _).
+  assert (Hcase' : a_inst c = -1 \/ keeps_pair c req \/ closes req) by (destruct Hcase; [left; congruence | right; right; assumption]).
+  destruct (update_attempt_spec s c req HI Hc Hk Hri Hcase') as (I1 & Fj & Fi & _ & _ & _ & U1 & _ & U3).
+  fold s1 in I1, Fj, Fi, U1, U3. clearbody s1.
+  assert (Hjc : jc s c = j_cores x) by (unfold jc; rewrite Hb, Hj, Hx; reflexivity).
+  assert (Hfi : find_inst s1 i = find_inst s i) by (unfold find_inst; rewrite Fi; reflexivity).
+  assert (C1 : forall z, In z (insts s) -> i_name z <> -1 -> i_name z <> i -> cores_ok s1 z).
+  { intros z Hz Hnz Hne. unfold cores_ok. rewrite U1 by congruence. apply HC; assumption. }
+  pose proof HI as (Hju & Hau & Hiu & Haj & Hai & Hr).
+  destruct (Z.eq_dec i (-1)) as [Ei|Ei].
+  - (* NULL instance: only an instance named NULL can be touched *)
+    assert (CI1 : CInv s1).
+    { split; [exact I1|]. intros z Hz Hnz. rewrite Fi in Hz. apply C1; [assumption | assumption | congruence]. }
+    subst s2. destruct give; [|split; assumption].
+    destruct (find_inst s1 i) as [y|] eqn:Ey; [|split; assumption].
+    split; [|exact Fj]. apply cinv_give_null; [exact CI1|]. apply find_inst_in in Ey. destruct Ey as [_ Ey]. congruence.
+  - destruct Hcase as [Hcase|Hcl]; [contradiction|].
+    assert (Hic : a_inst c <> -1) by congruence.
+    destruct (U3 Hic Hcl) as [U3' _]. rewrite Hi, Hjc in U3'.
+    subst s2 give. unfold inst_state. rewrite Hfi.
+    destruct (find_inst s i) as [y|] eqn:Ey.
+    + apply find_inst_in in Ey. destruct Ey as [Hy Hny]. cbn [option_map inst_live].
+      assert (Huniq : forall z, In z (insts s) -> i_name z = i -> z = y).
+      { intros z Hz Hnz. pose proof (find_ikey_unique _ z Hiu Hz) as F1. pose proof (find_ikey_unique _ y Hiu Hy) as F2.
+        rewrite Hnz, <- Hny in F1. congruence. }
+      pose proof (HC y Hy) as Cy. unfold cores_ok in Cy. rewrite Hny in Cy. specialize (Cy Ei).
+      destruct (ilive (i_state y) && is_open c) eqn:Eg.
+      * apply andb_true_iff in Eg. destruct Eg as [El Eo]. rewrite El in Cy. rewrite Eo in U3'.
+        split; [split|exact Fj].
+        -- apply (inv0_insts s1 _ I1); try reflexivity. cbn [insts]. apply replace_inst_names.
+        -- intros z Hz Hnz. change (In z (replace_inst (y <| i_free := i_free y + j_cores x |>) (insts s1))) in Hz.
+           rewrite Fi in Hz. apply in_replace_inst in Hz.
+           unfold cores_ok. rewrite (used_same_attempts s1 _ (i_name z)) by reflexivity.
+           destruct Hz as [->|[Hz Hne]].
+           ++ inst_simpl. rewrite El, Hny, U3', Cy. lia.
+           ++ change (i_name z <> i_name y) in Hne. rewrite Hny in Hne. apply C1; assumption.
+      * split; [split; [exact I1|] | exact Fj].
+        intros z Hz Hnz. rewrite Fi in Hz.
+        destruct (Z.eq_dec (i_name z) i) as [E|E]; [|apply C1; assumption].
+        rewrite (Huniq z Hz E). unfold cores_ok. rewrite Hny, U3'.
+        apply andb_false_iff in Eg. destruct Eg as [El|Eo].
+        -- rewrite El in *. exact Cy.
+        -- rewrite Eo. rewrite Z.sub_0_r. exact Cy.
+    + cbn [option_map inst_live andb]. split; [split; [exact I1|] | exact Fj].
+      intros z Hz Hnz. rewrite Fi in Hz. apply C1; try assumption.
+      intros E. rewrite find_inst_eq in Ey. apply find_ikey_none in Ey. apply Ey. rewrite <- E. apply in_map; exact Hz.
+Qed.
+
+(* ------------------------------------------------------------------ (5) the job messages *)
+
+Lemma find_job_jobs_eq s s' b j : jobs s' = jobs s -> find_job s' b j = find_job s b j.
+Proof. intros H. unfold find_job. rewrite H. reflexivity. Qed.
+
+Lemma CInv_jext' s s' : CInv s -> jext s s' -> CInv s'.
+Proof. apply CInv_jext. Qed.
+
+Lemma cinv_update_found s b j x n : CInv s -> find_job s b j = Some x -> jskel n = jskel x -> CInv (update_job s x n).
+Proof. intros HC Hx Hs. eapply CInv_jext; [exact HC|]. eapply jext_update_found; [apply HC | exact Hx | exact Hs]. Qed.
+
+Lemma do_schedule_cinv s b j a i : CInv s -> legal s (ScheduleJob b j a i) -> CInv (fst (do_schedule s b j a i)).
+Proof.
+  intros HC Hl. unfold legal, legalb in Hl. apply andb_true_iff in Hl. destruct Hl as [_ Hon].
+  unfold do_schedule. destruct (find_job s b j) as [x|] eqn:Hx; [|exact HC].
+  destruct (is_job_cancelled s x); [|exact HC]. cbv zeta.
+  destruct (add_attempt s b j a i (j_cores x)) as [[s1 d0]|] eqn:Ea; [|exact HC].
+  destruct (add_attempt_spec _ _ _ _ _ _ _ _ HC Hx Hon Ea) as (C1 & J1 & _).
+  match goal with |- context [if ?c then _ else _] => destruct c end; cbn [fst]; [|exact C1].
+  eapply cinv_update_found; [exact C1 | rewrite (find_job_jobs_eq s s1 b j J1); exact Hx | reflexivity].
+Qed.
+
+Lemma set_times_cinv s b j a t : CInv s -> CInv (set_times s b j a t) /\ jobs (set_times s b j a t) = jobs s.
+Proof.
+  intros HC. unfold set_times. destruct (find_attempt s b j a) as [cur|] eqn:Ef; [|split; [exact HC | reflexivity]].
+  apply find_attempt_in in Ef. destruct Ef as [Hc _].
+  apply cinv_update_keep; try assumption; reflexivity.
+Qed.
+
+Lemma do_mark_cs_cinv cr s b j a i t :
+  CInv s -> attempt_on s b j a i = true -> CInv (fst (do_mark_creating_or_started cr s b j a i t)).
+Proof.
+  intros HC Hon. unfold do_mark_creating_or_started. destruct (find_job s b j) as [x|] eqn:Hx; [|exact HC].
+  destruct (is_job_cancelled s x); [|exact HC].
+  destruct (add_attempt s b j a i (j_cores x)) as [[s1 d0]|] eqn:Ea; [|exact HC].
+  destruct (add_attempt_spec _ _ _ _ _ _ _ _ HC Hx Hon Ea) as (C1 & J1 & _).
+  cbv zeta. destruct (set_times_cinv s1 b j a t C1) as [C2 J2].
+  match goal with |- context [if ?c then _ else _] => destruct c end; cbn [fst]; [|exact C2].
+  eapply cinv_update_found; [exact C2 | rewrite (find_job_jobs_eq s1 _ b j J2), (find_job_jobs_eq s s1 b j J1); exact Hx |].
+  destruct cr; reflexivity.
+Qed.
+
+Lemma do_unschedule_cinv s b j a i t r :
+  CInv s -> legal s (UnscheduleJob b j a i t r) -> CInv (fst (do_unschedule s b j a i t r)).
+Proof.
+  intros HC Hl. unfold legal, legalb in Hl. apply andb_true_iff in Hl. destruct Hl as [_ Hon].
+  unfold attempt_exists_on in Hon. unfold do_unschedule.
+  destruct (find_job s b j) as [x|] eqn:Hx; [|destruct (_ && _); exact HC].
+  destruct (find_attempt s b j a) as [c|] eqn:Ef; [|discriminate]. apply Z.eqb_eq in Hon. cbv zeta.
+  set (req := c <| a_rollup := Some t |> <| a_end := Some t |> <| a_reason := Some r |>).
+  assert (Hcl : i = -1 \/ closes req) by (right; split; discriminate).
+  pose proof (close_and_give s b j a c x i req HC Ef Hx Hon eq_refl eq_refl Hcl) as H. cbv zeta in H.
+  change (match a_end c with None => true | Some _ => false end) with (is_open c).
+  destruct H as [C2 J2].
+  match goal with |- context [if ?cnd then (update_job ?s2 _ _, _) else _] => set (s2' := s2) in * end.
+  match goal with |- context [if ?cnd then (update_job _ _ _, _) else _] => destruct cnd end; cbn [fst]; [|exact C2].
+  eapply cinv_update_found; [exact C2 | rewrite (find_job_jobs_eq s s2' b j J2); exact Hx | reflexivity].
+Qed.
+
+(* the job part of a completion: state change, group and batch tallies, children released *)
+Lemma complete_tail_jext s3 b j x n gf bf (cnd : bool) succ :
+  JU s3 -> find_job s3 b j = Some x -> jskel n = jskel x ->
+  let s4 := update_job s3 x n in
+  let s5 := s4 <| groups ::= gf s4 |> in
+  let s6 := if cnd then s5 <| batches ::= bf |> else s5 in
+  let s7 := finish_groups s6 b (j_group x) in
+  jext s3 (release_children s7 b j succ).
+Proof.
+  intros Hu Hx Hs s4 s5 s6 s7.
+  assert (J4 : jext s3 s4) by (eapply jext_update_found; eassumption).
+  assert (C7 : core_same s4 s7) by (subst s7 s6 s5; destruct cnd; repeat split).
+  assert (J7 : jext s3 s7) by (eapply jext_trans; [exact J4 | apply core_same_jext; [apply J4 | exact C7]]).
+  eapply jext_trans; [exact J7 | apply release_children_jext; apply J7].
+Qed.
+
+(* the extra environment assumption of C10: a completion without attempt id (the canceller completing a
+   Ready job) names no instance *)
+Definition names_attempt (o : op) : Prop :=
+  match o with MarkComplete _ _ a i _ _ _ _ => a = -1 -> i = -1 | _ => True end.
+
+Lemma do_mark_complete_cinv s b j a i ns st en rs :
+  CInv s -> legal s (MarkComplete b j a i ns st en rs) -> (a = -1 -> i = -1) ->
+  CInv (fst (do_mark_complete s b j a i ns st en rs)).
+Proof.
+  intros HC Hl Hna. unfold legal, legalb in Hl. rewrite !andb_true_iff in Hl. destruct Hl as [[[_ _] Hon] Hen].
+  unfold do_mark_complete. destruct (find_job s b j) as [x|] eqn:Hx; [|destruct (a =? -1); exact HC].
+  cbv zeta.
+  destruct (a =? -1) eqn:Ea.
+  - apply Z.eqb_eq in Ea. specialize (Hna Ea). subst i.
+    cbn [andb].
+    set (s3 := if inst_live (inst_state s (-1)) && true
+               then match find_inst s (-1) with
+                    | Some y => s <| insts ::= replace_inst (y <| i_free := i_free y + j_cores x |>) |>
+                    | None => s end
+               else s).
+    assert (C3 : CInv s3 /\ jobs s3 = jobs s).
+    { subst s3. destruct (inst_live (inst_state s (-1)) && true); [|split; [exact HC | reflexivity]].
+      destruct (find_inst s (-1)) as [y|] eqn:Ey; [|split; [exact HC | reflexivity]].
+      split; [|reflexivity]. apply cinv_give_null; [exact HC|]. apply find_inst_in in Ey. apply Ey. }
+    destruct C3 as [C3 J3]. clearbody s3.
+    assert (Hx3 : find_job s3 b j = Some x) by (rewrite (find_job_jobs_eq s s3 b j J3); exact Hx).
+    repeat match goal with |- context [if ?c then (_, _) else _] => destruct c end; cbn [fst]; try exact C3.
+    eapply CInv_jext; [exact C3|]. apply complete_tail_jext; [apply C3 | exact Hx3 | reflexivity].
+  - destruct (add_attempt s b j a i (j_cores x)) as [[s1 d0]|] eqn:Eadd; [|exact HC].
+    cbn [orb] in Hon.
+    destruct (add_attempt_spec _ _ _ _ _ _ _ _ HC Hx Hon Eadd) as (C1 & J1 & c & Fc & Ic).
+    rewrite Fc.
+    set (req := c <| a_start := st |> <| a_rollup := en |> <| a_end := en |> <| a_reason := Some rs |>).
+    assert (Hcl : i = -1 \/ closes req).
+    { apply orb_true_iff in Hen. destruct Hen as [Hen|Hen]; [left; apply Z.eqb_eq; exact Hen|].
+      right. split; [|discriminate]. subst req. cbn. destruct en; [discriminate | discriminate]. }
+    assert (Hx1 : find_job s1 b j = Some x) by (rewrite (find_job_jobs_eq s s1 b j J1); exact Hx).
+    pose proof (close_and_give s1 b j a c x i req C1 Fc Hx1 Ic eq_refl eq_refl Hcl) as H. cbv zeta in H.
+    change (match a_end c with None => true | Some _ => false end) with (is_open c).
+    match type of H with CInv ?t /\ _ => set (s3 := t) in * end.
+    destruct H as [C3 J3]. clearbody s3.
+    assert (Hx3 : find_job s3 b j = Some x) by (rewrite (find_job_jobs_eq s1 s3 b j J3); exact Hx1).
+    repeat match goal with |- context [if ?c then (_, _) else _] => destruct c end; cbn [fst]; try exact C3.
+    eapply CInv_jext; [exact C3|]. apply complete_tail_jext; [apply C3 | exact Hx3 | reflexivity].
 Qed.
